@@ -21,10 +21,10 @@ Proof. intros. repeat split; apply footprint_prims. Qed.
 
 (* ... and at any node, under any numbering environment (what the recursion goes through) *)
 Lemma footprint_ops_at : forall sh st f nb ne e s v,
-  disciplined [] (fst (run_prims sh true st (map prim_of (xprims_unser words pu f nb ne e s v)))) = true /\
-  disciplined [] (fst (run_prims sh true st (map prim_of (xprims_validate words pu f nb ne e s v)))) = true /\
-  disciplined [] (fst (run_prims sh true st (map prim_of (xprims_serialize words pu f nb ne e s v)))) = true /\
-  disciplined [] (fst (run_prims sh true st (map prim_of (xprims_compat words pu f nb ne e s v)))) = true.
+  disciplined [] (fst (run_prims sh true st (map prim_of (xprims_unser words pu false f nb ne e s v)))) = true /\
+  disciplined [] (fst (run_prims sh true st (map prim_of (xprims_validate words pu false f nb ne e s v)))) = true /\
+  disciplined [] (fst (run_prims sh true st (map prim_of (xprims_serialize words pu false f nb ne e s v)))) = true /\
+  disciplined [] (fst (run_prims sh true st (map prim_of (xprims_compat words pu false f nb ne e s v)))) = true.
 Proof. intros. repeat split; apply footprint_prims. Qed.
 End Ops.
 
